@@ -193,8 +193,13 @@ func newton_root(f objective_root, x ConstVector,
 
     // this is a simplified line search that tries to
     // satisfy the constraints
-    for {
+    for k := 0;; k++ {
       verifhook.Tick("newton.root.constraints")
+      if k >= 1000 {
+        // the step was reduced by a factor of 0.9^1000, it will never
+        // satisfy the constraints
+        return x1, fmt.Errorf("line search failed")
+      }
       x2.VsubV(x1, t1)
       if Vequals(x1, x2) {
         return x1, fmt.Errorf("line search failed")
@@ -308,8 +313,13 @@ func newton_min(
         x2.VsubV(x1, t1)
       }
     } else {
-      for {
+      for k := 0;; k++ {
         verifhook.Tick("newton.min.constraints")
+        if k >= 1000 {
+          // the step was reduced by a factor of 0.9^1000, it will never
+          // satisfy the constraints
+          return x1, fmt.Errorf("line search failed")
+        }
         x2.VsubV(x1, t1)
         if Vequals(x1, x2) {
           return x1, fmt.Errorf("line search failed")
